@@ -12,6 +12,15 @@ open SmtpV SmtpV.Wire SmtpV.DataReader SmtpV.Spec
 theorem WF_buf {w : W} (h : WF w) (b : Bytes) : WF { w with buf := b } := ⟨h.ne, h.err⟩
 theorem WF_limit {w : W} (h : WF w) (n : Nat) : WF { w with limit := n } := ⟨h.ne, h.err⟩
 
+theorem WF_resume {w : W} (h : WF w) (n : Nat) : WF (Wire.resume w n) := by
+  unfold Wire.resume
+  split
+  · exact ⟨h.ne, h.err⟩
+  · refine ⟨h.ne, fun he => ?_⟩
+    rcases h.err he with h1 | h1
+    · exact Or.inl h1
+    · exact Or.inr (by simp [h1])
+
 theorem readSlice_wf : ∀ (fuel : Nat) (w : W), WF w → WF (readSlice fuel w).1 := by
   intro fuel
   induction fuel with
@@ -467,10 +476,12 @@ theorem wfs_copyChunk : ∀ (fuel : Nat) (s : S) (k n cap : Nat), WFS s → WFS 
 
 theorem wfs_setLimit (s : S) (n : Nat) (h : WFS s) : WFS (setLimit s n) := h.setW (WF_limit h.w n)
 
+theorem wfs_armLimit (s : S) (h : WFS s) : WFS (armLimit s) := h.setW (WF_resume h.w _)
+
 theorem wfs_discardChunkN (s : S) (size? : Option Nat) (h : WFS s) : WFS (discardChunkN s size?) := by
   unfold discardChunkN
   split
-  · exact h.setW (WF_limit (discardN_wf _ _ _ (WF_limit h.w 0)) _)
+  · exact h.setW (WF_resume (discardN_wf _ _ _ (WF_limit h.w 0)) _)
   · exact h
 
 theorem sw_setBdatStatus (s : S) : SameWire s (setBdatStatus s) := by
@@ -515,7 +526,7 @@ theorem wfs_bdatFail (s : S) (k left : Nat) (last : Bool) (err : BRes) (h : WFS 
     · exact h2.of_same (sw_closeConn _)
     · exact h2
   generalize (if err == errPanic then closeConn s2 else s2) = s3 at h3 ⊢
-  exact wfs_setLimit _ _ (h3.of_same (sw_resetConn _))
+  exact wfs_armLimit _ (h3.of_same (sw_resetConn _))
 
 theorem sw_bdatFinal (s : S) (k : Nat) : SameWire s (bdatFinal s k).1 := by
   unfold bdatFinal
@@ -540,9 +551,9 @@ theorem sw_bdatFinal (s : S) (k : Nat) : SameWire s (bdatFinal s k).1 := by
 theorem wfs_bdatDone (s : S) (k size : Nat) (last : Bool) (h : WFS s) : WFS (bdatDone s k size last).1 := by
   unfold bdatDone
   simp only []
-  have h1 : WFS (setLimit (addBytesReceived s size) s.cfg.maxLine) :=
-    wfs_setLimit _ _ (h.of_same (s' := addBytesReceived s size) ⟨rfl, rfl⟩)
-  generalize setLimit (addBytesReceived s size) s.cfg.maxLine = s1 at h1 ⊢
+  have h1 : WFS (armLimit (addBytesReceived s size)) :=
+    wfs_armLimit _ (h.of_same (s' := addBytesReceived s size) ⟨rfl, rfl⟩)
+  generalize armLimit (addBytesReceived s size) = s1 at h1 ⊢
   split
   · exact h1.of_same (sw_reply _ _ _ _)
   · exact h1.of_same (sw_bdatFinal _ _)
